@@ -278,7 +278,7 @@ def _expected_records(a, p):
     magic = 1 if a["version"] >= 2 else 0
     if a["mode"] == "explicit":
         return [(magic, attr, k, v, (ts if magic else None)) for (k, v, attr, ts) in p["msgs"]], None
-    ts = a["now_ms"] if magic else None
+    ts = int((a["now_ms"] / 1000.0) * 1000) if magic else None  # what int(time.time() * 1000) yields
     flat = [(magic, 0, k, v, ts) for k, vs in p["reqs"] for v in vs]
     return flat, (1 if a["mode"] == "cms-gzip" else None)
 
